@@ -609,6 +609,9 @@ def partial_(tier, seed, ci, nc):
                     if len(nm) > (2 if tier == 'quick' else 3):
                         continue
                     yield ('partialsig', n, tuple((k, 5 + i) for i, k in enumerate(nm)), ps)
+                    if nm:
+                        # a falsy bound value (token 0 is None): the bound value is the default, whatever its truth value
+                        yield ('partialsig', n, tuple((k, 0 if i == 0 else 5 + i) for i, k in enumerate(nm)), ps)
     return _slice(gen(), ci, nc)
 
 
@@ -781,6 +784,7 @@ def lateattr(tier, seed, ci, nc):
     def gen():
         for v in ('as_forged', 'emulate', 'plain'):
             yield ('rt:lateattr', v)
+        yield ('rt:truth_history',)
     return _slice(gen(), ci, nc)
 
 
@@ -1203,7 +1207,7 @@ def partialfwd(tier, seed, ci, nc, count=400):
     rng = _rng(seed, 'partialfwd', ci)
     univ = [s for s in U('xy', 2) if not any(p[0] in ('a', 'cb', 'target', 'args', 'kwargs') and p[1] not in ('vp', 'vk') for p in s)]
     for k in range(count // nc):
-        tmpl = ('posparam', 'kwdefault', 'kwbound', 'globnone', 'globkw', 'globpos', 'kwleading', 'nestedpartial')[k % 8]
+        tmpl = ('posparam', 'kwdefault', 'kwbound', 'globnone', 'globkw', 'globpos', 'kwleading', 'nestedpartial', 'hintkwo', 'hintposo')[k % 10]
         yield ('rt:partialfwd', tmpl, rng.choice(univ), rng.choice(univ), rng.choice([0, 0, 1]))
 
 
